@@ -365,11 +365,17 @@ def h_layer(E, order, extra_group, lbv, prop):
     E.assume(sep > 0)
     prms.update(MSA=None, BASE_LVL_LOOKBACK_PERC=lb, BASE_LVL_HEIGHT_PERC=q, MIN_SEP_VALS=[sep], MIN_SEP_LIMS=[])
     g2 = None
-    if extra_group:
+    if extra_group == 1:
         g2 = E.int('g2', 1, None)
         hs.append(9000.0)
         ds.append(-7.0)
         gid.append(g2)
+    if extra_group == 2:
+        # a second 30-hit group: the first one shifted by 5000 ft (same rescaled samples, hence - the mixture model being
+        # deterministic - the same labelling and scores): two split groups, both re-merged alike
+        hs = hs + [h + 5000.0 for h in hs]
+        ds = ds + [d - 0.5 for d in ds]
+        gid = gid + [1] * n
     N = len(hs)
     data = frame({'ceilo': ['a'] * N, 'dt': ds, 'height': hs, 'type': [1] * N, 'slice_id': list(gid), 'group_id': list(gid)},
                  index=([0] + list(range(2, N + 1))) if gapped else None)
@@ -403,6 +409,19 @@ def h_layer(E, order, extra_group, lbv, prop):
     E.cover('group split in 3', ncomp == 3)
     E.cover('group not split', ncomp <= 1)
     if prop == 'C08':
+        return cl
+    if prop == 'C05' and extra_group == 2:
+        lids = [int(x) for x in lid]
+        gids = [int(x) for x in col(ch.data, 'group_id')]
+        for l in sorted(set(lids)):
+            cl.append(('layer %d lies inside exactly one group' % l, len(set(g for g, x in zip(gids, lids) if x == l)) == 1))
+        for r in range(len(gc)):
+            nc = int(col(g, 'ncomp')[r])
+            cl.append(('group %d with ncomp=%d yields exactly that many layers (one if not split)' % (int(gc[r]), nc),
+                       len(set(x for g_, x in zip(gids, lids) if g_ == int(gc[r]))) == max(1, nc)))
+        cl.append(('n_layers and the layers table match the assignment', ch.n_layers == len(set(lids)) and len(ch.layers) == len(set(lids))))
+        E.cover('both groups split', all(int(x) > 1 for x in col(g, 'ncomp')))
+        E.cover('a 3-component group re-merged to 2', [c[1] for c in stubs.CALLS if c[0] == 'gmm_predict'][-1:] == [3] and ncomp == 2)
         return cl
     if prop == 'C05':
         cl.append(('a group reported with k sub-components yields exactly k layers (one if not split)', len(lay0) == max(1, ncomp)))
